@@ -740,6 +740,20 @@ func c09ClientRun(c c09ClientCase) Verdict {
 	if c.HangUp && outcome != "client-error" {
 		v.Classes = append(v.Classes, "peer_hangs_up_after_final_reply")
 	}
+	if n := len(wantClient); outcome == "success" && len(c.Server.FinalData) > 0 && len(mech.challenges) == n+1 && bytes.Equal(mech.challenges[n], c.Server.FinalData) {
+		// A server that hands the mechanism's final data to the client the
+		// RFC 4954 way (one more 334): the client mechanism sees it as a
+		// challenge of its own, and what a scripted mechanism with no step
+		// left answers, and what becomes of the exchange then, is not this
+		// property's business. The octets crossed unaltered.
+		for i := 0; i < n; i++ {
+			if !bytes.Equal(mech.challenges[i], wantClient[i]) {
+				return failf("client-input", "challenge %d reached the client mechanism as %q, the server sent %q", i, mech.challenges[i], wantClient[i])
+			}
+		}
+		v.Classes = append(v.Classes, "final_data_sent_as_challenge")
+		return v
+	}
 	if len(mech.challenges) != len(wantClient) {
 		return failf("client-input", "client mechanism received %d challenges, the server sent %d (outcome %s, Auth returned %v)", len(mech.challenges), len(wantClient), outcome, authErr)
 	}
